@@ -172,6 +172,10 @@ func registerIntrinsics(m map[string]modelFn) {
 		}
 		e.finish(st, c, nil)
 	}
+	// Slow: the code running here takes its time. No effect on the symbolic run (schedules are
+	// fixed by the go policy); the native twin sleeps, so that a replayed counterexample of a
+	// "goroutine runs late" schedule shows the same order natively.
+	m[zzPkg+"Slow"] = func(e *Engine, st *State, c *callCtx) { e.finish(st, c, nil) }
 	m[zzPkg+"Cover"] = func(e *Engine, st *State, c *callCtx) {
 		name := e.argString(st, c.args[0])
 		cond := c.args[1].(*Term)
